@@ -71,7 +71,7 @@ class C05(CheckBase):
                 pass
         return {"property": "C05", "schema": it["name"], "schema_def": it["sd"],
                 "model": {"header": pm.default_header(core.rng(seed, "C05", "hdr", j), it["name"], rich=False), "insts": insts or []},
-                "render": {"p_ws": r.choice([0, 0.1]), "p_cmt_between": r.choice([0, 0.2]), "p_cmt_in": 0, "sections": "hif", "eol": r.choice(["\n"] * 7 + ["", " ", "\r\n"]),
+                "render": {"p_ws": r.choice([0, 0.1]), "p_cmt_between": r.choice([0, 0.2]), "p_cmt_in": 0, "sections": "hif", "spell": r.choice([None] * 6 + [{"id_pad": 4}, {"id_pad": 9, "plus_int": True}, {"plus_int": True}]), "eol": r.choice(["\n"] * 7 + ["", " ", "\r\n"]),
                            "seed": core.derive(seed, "C05", "render", j)},
                 "working": r.random() < 0.3}
 
@@ -122,7 +122,7 @@ class C05(CheckBase):
         ntok = {k: len(t) for k, t in lines}
         rn = dict(rn, seps={k: v for k, v in rn["seps"].items() if int(k.rsplit(":", 1)[1]) < ntok.get(k.rsplit(":", 1)[0], -1)})
         plan["render"] = rn
-        plan["files"] = {"a.p21": pm.render(lines, rn["seps"], rn.get("eol", "\n"))}
+        plan["files"] = {"a.p21": pm.render(lines, rn["seps"], rn.get("eol", "\n"), rn.get("spell"))}
         return plan
 
     # ------------------------------------------------------------------ run
